@@ -15,7 +15,7 @@ from collections import deque
 import z3
 
 from . import engine as E
-from .engine import Engine, EngineSignal, PathEnd, Unmodelled, Inconclusive, BudgetExceeded, PathResult
+from .engine import Engine, EngineSignal, PathEnd, Unmodelled, Inconclusive, BudgetExceeded, PathResult, NonTermination
 from .api import SymCtx, ConcCtx, concretize_value
 from . import models as M
 
@@ -131,6 +131,19 @@ def run_one_path(spec, tier, prefix, seed, known_active, deadline_s=120.0, timeo
     except Inconclusive as x:
         res.status = "inconclusive"
         res.error = "inconclusive: %s" % x
+    except NonTermination as x:
+        # violation candidate: the native replay (under a watchdog) decides whether the real code hangs on this input
+        try:
+            mdl = eng.model()
+            if mdl is not None:
+                res.violations.append({"label": "terminates", "witness": S._witness(mdl), "decisions": list(eng.trace)})
+                res.status = "violation"
+                res.notes.append("non-termination candidate: %s" % x)
+            else:
+                res.status = "pruned"
+        except EngineSignal:
+            res.status = "inconclusive"
+            res.error = "non-termination candidate without a model: %s" % x
     except BudgetExceeded as x:
         res.status = "inconclusive"
         res.error = "budget: %s" % x
@@ -235,6 +248,18 @@ def run_native(spec, tier, witness):
     cm = spec.native_patch(S) if spec.native_patch else None
     stubs = _NativeStubs(getattr(sys.modules[spec.module], "STUBS", []))
     err = None
+    import signal
+    import threading
+
+    class _Hang(BaseException):
+        pass
+
+    def _alarm(signum, frame):
+        raise _Hang()
+    watchdog = threading.current_thread() is threading.main_thread()
+    if watchdog:
+        old_handler = signal.signal(signal.SIGALRM, _alarm)
+        signal.setitimer(signal.ITIMER_REAL, NATIVE_WATCHDOG_S)
     try:
         if cm is not None:
             cm.__enter__()
@@ -242,13 +267,22 @@ def run_native(spec, tier, witness):
         try:
             spec.fn(S, B)
         finally:
+            if watchdog:
+                signal.setitimer(signal.ITIMER_REAL, 0)
             stubs.__exit__()
             if cm is not None:
                 cm.__exit__(None, None, None)
     except PathEnd:
         pass
+    except _Hang:
+        # the real code did not come back within the watchdog period on this input
+        S.failed.append("terminates")
     except BaseException as x:
         err = "%s: %s" % (type(x).__name__, _safe_str(x))
+    finally:
+        if watchdog:
+            signal.setitimer(signal.ITIMER_REAL, 0)
+            signal.signal(signal.SIGALRM, old_handler)
     return S, err
 
 
@@ -376,6 +410,7 @@ class Summary:
         self.missing_covers = []
 
 
+NATIVE_WATCHDOG_S = float(os.environ.get("PYSYM_NATIVE_WATCHDOG", "20"))
 MAX_VIOLATED_PATHS = int(os.environ.get("PYSYM_MAX_VIOLATED", "400"))
 
 
